@@ -15,7 +15,8 @@ the structures that carry a lifetime.  The state is the product of
 Two clocks: steady `now`, wall `now + wallOff` (constant offset).  The model follows the code after the
 repair proposed with this property (`fixes/C05-prune-expired-manifests.patch`: the cleanup branch of
 `tick` drops every cached manifest whose `expires_at` has passed together with the swarm plan of the
-same key) and after the C01/C04/C06 repairs already in the tree.
+same key), after the C01/C04/C06 repairs already in the tree, and after repair C11-1 (a manifest arriving
+without its chunk does not re-key a chunk the node holds: `keepsReadable`).
 
 Not modelled: sender admission of `handle_announce` (PoW, throttle, lock-out: C21), the content of
 manifests, key shares and plans (only their lifetimes), the swarm role ledger, uploads, the pending
@@ -98,19 +99,39 @@ def store (cfg : Cfg) (s : State) (c : String) (ttl : Int) (hint : Option (List 
   let s2 := selfAnnounce cfg s1 c (t * ns) hint
   { s2 with plans := aset s2.plans c (s.now + cfg.rebalance * ns) }
 
+/-- `KademliaTable::shard_record` finds a live record -/
+def shardLive (s : State) (c : String) : Bool :=
+  match aget s.shards c with
+  | some e => !(cmp EphVerif.Gen.C05.shardRecordExpiredIsGe s.now e)
+  | none => false
+
+/-- `Node::manifest_keeps_held_chunk_readable` (repair C11-1): a manifest that arrives without its chunk may
+    replace the cached manifest / key shares / plan of a chunk the node **holds** only if it stands for the same
+    content and key.  This model carries lifetimes, not contents: `same` is the outcome of the comparisons the
+    code performs (content hash against the cached manifest, if one is cached; reconstructed key against the
+    shares the chunk is read with at present — the live key-share record, else the cached manifest's).
+    Not held, or nothing to compare with: adopt. -/
+def keepsReadable (s : State) (c : String) (same : Bool) : Bool :=
+  match ChunkStore.getRecord s.recs s.now c with
+  | none => true
+  | some _ => if (aget s.cache c).isNone && !(shardLive s c) then true else same
+
 /-- `Node::ingest_manifest` (also the effect of `request_chunk`, i.e. of a dispatched pending fetch) -/
-def ingest (cfg : Cfg) (s : State) (c : String) (e : Int) : State :=
+def ingest (cfg : Cfg) (s : State) (c : String) (e : Int) (same : Bool) : State :=
   match manifestTtl cfg (wall cfg s) e with
   | none => s
-  | some t => acceptManifest cfg s c e t
+  | some t =>
+    if EphVerif.Gen.C05.ingestGuardsHeld && !(keepsReadable s c same) then s
+    else acceptManifest cfg s c e t
 
-/-- `Node::handle_announce` once the sender checks have passed -/
-def announce (cfg : Cfg) (s : State) (c : String) (e : Int) (p : String) (pid : Routing.Id) (addr : String)
+/-- `Node::handle_announce` once the sender checks have passed: the provider contact is recorded in any case,
+    manifest cache / key shares / plan only if the manifest keeps a held chunk readable -/
+def announce (cfg : Cfg) (s : State) (c : String) (e : Int) (same : Bool) (p : String) (pid : Routing.Id) (addr : String)
     (ttl : Int) (hint : Option (List String)) : State :=
   match manifestTtl cfg (wall cfg s) e with
   | none => s
   | some t =>
-    let s1 := acceptManifest cfg s c e t
+    let s1 := if EphVerif.Gen.C05.announceGuardsHeld && !(keepsReadable s c same) then s else acceptManifest cfg s c e t
     let a := if ttl > 0 then ttl else t
     let a := if a > t then t else a
     let a := ChunkStore.clampChunkTtl a cfg.node.minTtl cfg.node.maxTtl
@@ -124,12 +145,6 @@ def reannounce (cfg : Cfg) (s : State) (c : String) (ttl : Int) (hint : Option (
   match ChunkStore.getRecord s.recs s.now c with
   | none => s
   | some r => if s.now + ttl * ns < r.expires then s else selfAnnounce cfg s c (ttl * ns) hint
-
-/-- `KademliaTable::shard_record` finds a live record -/
-def shardLive (s : State) (c : String) : Bool :=
-  match aget s.shards c with
-  | some e => !(cmp EphVerif.Gen.C05.shardRecordExpiredIsGe s.now e)
-  | none => false
 
 /-- `Node::fetch_chunk`: a held (encrypted) chunk whose key-share record is gone gets it re-published from
     the cached manifest; a chunk that is not held is looked up in the provider directory, which prunes -/
@@ -225,8 +240,8 @@ def audit (cfg : Cfg) (ks : List String) (s : State) : Audit :=
 inductive Op where
   | adv (d : Nat)
   | store (c : String) (ttl : Int) (hint : Option (List String))
-  | ingest (c : String) (e : Int)
-  | announce (c : String) (e : Int) (p : String) (pid : Routing.Id) (addr : String) (ttl : Int) (hint : Option (List String))
+  | ingest (c : String) (e : Int) (same : Bool)
+  | announce (c : String) (e : Int) (same : Bool) (p : String) (pid : Routing.Id) (addr : String) (ttl : Int) (hint : Option (List String))
   | reannounce (c : String) (ttl : Int) (hint : Option (List String))
   | lookup (c : String)
   | probe (c : String)
@@ -243,8 +258,8 @@ structure Run where
 def step (cfg : Cfg) (s : State) : Op → State
   | .adv d => { s with now := s.now + d }
   | .store c ttl hint => store cfg s c ttl hint
-  | .ingest c e => ingest cfg s c e
-  | .announce c e p pid addr ttl hint => announce cfg s c e p pid addr ttl hint
+  | .ingest c e same => ingest cfg s c e same
+  | .announce c e same p pid addr ttl hint => announce cfg s c e same p pid addr ttl hint
   | .reannounce c ttl hint => reannounce cfg s c ttl hint
   | .lookup c => lookup cfg s c
   | .probe c => probe s c
